@@ -464,6 +464,8 @@ func validators(res *core.Result, maxLen int) core.Sub {
 
 // ---- shards
 
+var longLens = []int{63, 64, 65, 127, 128, 129, 200, 230, 255, 256, 300}
+
 func lenSub(kind string, l int) string { return fmt.Sprintf("%s/len%d", kind, l) }
 
 func runShard(res *core.Result, shard, shards, maxLen int) {
@@ -517,6 +519,41 @@ func runShard(res *core.Result, shard, shards, maxLen int) {
 		if !complete {
 			break
 		}
+	}
+	if doRec && core.Want("recnames/long") {
+		// long usernames: every string of 1..2 symbols embedded in a name of
+		// each boundary length, at the start, before and across the 64/128/255
+		// byte marks, and at the end
+		t0 := time.Now()
+		r0 := w.recExecs
+		var done int64
+		complete := true
+		w.recSamples = nil
+		var idx int64 = 1 << 40
+		for l := 1; l <= 2; l++ {
+			for i := int64(0); i < pow9(l); i++ {
+				core0 := nth(l, i)
+				for _, total := range longLens {
+					for _, at := range []int{0, 62, 63, 126, 127, 128, 253, total - len(core0)} {
+						idx++
+						if idx%int64(shards) != int64(shard) || at < 0 || at+len(core0) > total {
+							continue
+						}
+						if done%16 == 0 && !core.TimeLeft() {
+							complete = false
+							continue
+						}
+						u := strings.Repeat("u", at) + core0 + strings.Repeat("v", total-at-len(core0))
+						w.input, w.index = u, idx
+						w.driveRecording(u)
+						done++
+					}
+				}
+			}
+		}
+		res.AddSub(core.Sub{Name: "recnames/long", States: done, Executions: w.recExecs - r0, Transitions: w.recExecs - r0,
+			Exhaustive: complete, Samples: w.recSamples, WallS: time.Since(t0).Seconds(),
+			Bound: fmt.Sprintf("every string of 1..2 symbols x %d total lengths x 8 positions", len(longLens))})
 	}
 	if msg := w.sb.checkOutside(true); msg != "" {
 		w.input, w.index = "", 1<<60
